@@ -41,7 +41,7 @@ def insSeqCoded : Shape Rat → List String → Option String
   | S, ps :: ns :: chk :: rest => do
       let params ← parseOptList ps
       let nums ← parseNats ns
-      if params.length != S.pdim || nums.length != S.pdim then return "ERR"
+      if !callListsOk S params nums (chk == "1") then return "ERR"
       if (List.range S.pdim).any (fun d => match params.getD d none with | some u => !inDomS S d u | none => false) then return "ERR"
       let res := insertKnotCoded S params nums tolMult (chk == "1")
       if res.2 then insSeqCoded res.1 rest else return "ERR"
